@@ -304,8 +304,14 @@ func (x *lbExt) checkAttempts() {
 		}
 		e.Probe("attempt_attributed_to_pick")
 		s := pk.sc
-		if pk.hdrConn < len(x.w.net.Pairs) && !s.had(x.w.net.Pairs[pk.hdrConn].Addr, pk.hdrSeq) {
-			e.Violate("attempt_wrong_subconn", "pick %d chose sc%d (%s) but the attempt went over connection %d to %s", pk.id, s.id, s.addr, pk.hdrConn, x.w.net.Pairs[pk.hdrConn].Addr)
+		// the connection goes to an address of the picked SubConn: one of a list
+		// that was (possibly) current between the Pick and the HEADERS. Once
+		// UpdateAddresses has returned, a connection to an address that is no
+		// longer listed is not the SubConn's any more (balancer.ClientConn docs).
+		if pk.hdrConn < len(x.w.net.Pairs) && !s.listed(x.w.net.Pairs[pk.hdrConn].Addr, pk.seq, pk.hdrSeq) {
+			e.Violate("attempt_wrong_subconn", "pick %d chose sc%d (%s) but the attempt went over connection %d to %s, which was not among the SubConn's addresses between the Pick and the HEADERS", pk.id, s.id, s.addr, pk.hdrConn, x.w.net.Pairs[pk.hdrConn].Addr)
+		} else if len(s.addrHist) > 1 {
+			e.Probe("attempt_on_retargeted_subconn")
 		}
 		if s.inst.closed && s.inst.closedSeq < x.quiesceSeq {
 			continue // the listener log of an instance closed by idle mode is incomplete
@@ -533,7 +539,8 @@ func (x *lbExt) checkSubConnLogs() {
 		group[a] = a
 		return a
 	}
-	hcGroup := map[string]bool{}
+	hcGroup := map[string]bool{} // some SubConn of the group is health-checked
+	allHC := map[string]bool{}   // all are
 	for _, o := range x.scs {
 		for _, h := range o.addrHist {
 			for _, a := range h.addrs {
@@ -544,8 +551,12 @@ func (x *lbExt) checkSubConnLogs() {
 		}
 	}
 	for _, o := range x.scs {
+		g := root(o.addrHist[0].addrs[0])
 		if o.hc {
-			hcGroup[root(o.addrHist[0].addrs[0])] = true
+			hcGroup[g] = true
+		}
+		if _, ok := allHC[g]; !ok || !o.hc {
+			allHC[g] = o.hc
 		}
 	}
 	count := func(g string, st connectivity.State, upto uint64) int {
@@ -582,8 +593,20 @@ func (x *lbExt) checkSubConnLogs() {
 				// moves a connected SubConn between READY and TRANSIENT_FAILURE
 				// with the backend's health status; the statement's transition
 				// rules describe the connection state machine and are not
-				// applied to such a SubConn.
+				// applied to such a SubConn. The cause of a READY report is a
+				// backend saying SERVING (or ending Watch with UNIMPLEMENTED).
 				e.Probe("sc_edge_healthchecked")
+				if ev.state == connectivity.Ready && allHC[g] {
+					nc := 0
+					for _, c := range x.hcauses {
+						if _, ok := group[c.addr]; ok && c.seq < ev.seq && root(c.addr) == g {
+							nc++
+						}
+					}
+					if nr := count(g, connectivity.Ready, ev.seq); nr > nc {
+						e.Violate("sc_update_without_cause", "sc%d (%s, health-checked): %d READY updates but its backend reported SERVING only %d times before", s.id, s.addr, nr, nc)
+					}
+				}
 				prev, prevT = ev.state, ev.t
 				continue
 			}
@@ -597,6 +620,11 @@ func (x *lbExt) checkSubConnLogs() {
 				e.Violate("sc_illegal_transition", "sc%d: TRANSIENT_FAILURE -> %v (update %d)", s.id, ev.state, j)
 			case prev == connectivity.Ready && ev.state == connectivity.Connecting && nu > 0:
 				e.Probe("sc_reconnect_after_update_addresses")
+				if h := s.addrHist[nu-1 : nu+1]; len(h[0].addrs) == 1 && lbHasAddr(h[1].addrs, h[0].addrs[0]) {
+					// not an oracle of C30/C32: the connection was dropped although
+					// its (only possible) address is still listed
+					e.Probe("update_addresses_dropped_listed_connection")
+				}
 			case ev.state != connectivity.Shutdown && !lbEdgeOK[[2]connectivity.State{prev, ev.state}]:
 				e.Violate("sc_out_of_order", "sc%d: update %d reports %v after %v, which is not a step of the subchannel state machine (updates lost or reordered)", s.id, j, ev.state, prev)
 			}
